@@ -128,8 +128,8 @@ def kernel_index(S, kind, B, diag):
             reps.append(as_sym_arr(SH.get(dense(rep(x1[b], x2[b])))))
         lazy = k(x1, x2)
         for b in reversed(range(B)):
-            S.prove_eq(dense(lazy[b]), reps[b], "lazy kernel matrix [%d] = replica %d" % (b, b))
-            S.prove_eq(dense(k[b](x1[b], x2[b])), reps[b], "kernel[%d](x[%d]) = replica %d" % (b, b, b))
+            S.prove_eq(S.must_not_raise("lazy kernel matrix [%d] of a %s kernel" % (b, kind), lambda: dense(lazy[b])), reps[b], "lazy kernel matrix [%d] = replica %d" % (b, b))
+            S.prove_eq(S.must_not_raise("kernel[%d](x[%d]) of a %s kernel" % (b, b, kind), lambda: dense(k[b](x1[b], x2[b]))), reps[b], "kernel[%d](x[%d]) = replica %d" % (b, b, b))
         Kb = dense(k(x1, x2))
         for b in range(B):
             S.prove_eq(Kb[b], reps[b], "batched kernel AFTER indexing: element %d = replica" % b)
